@@ -98,7 +98,10 @@ def analyse(seed):
     recs.append({'geo': 1, 'date': t0 + pd.Timedelta(days=n + t), 'period': 1, 'group': 1, 'response': xt})
     recs.append({'geo': 2, 'date': t0 + pd.Timedelta(days=n + t), 'period': 1, 'group': 2, 'response': a + b * xt + lift / T})
   m = tbr.TBR(use_cooldown=False)
-  m.fit(pd.DataFrame(recs).set_index('date'), 'response')
+  frame = pd.DataFrame(recs)
+  if seed % 2:
+    frame = frame.sample(frac=1.0, random_state=seed % (2 ** 31)).reset_index(drop=True)    # rows in arbitrary order
+  m.fit(frame.set_index('date'), 'response')
   dist = m.causal_cumulative_distribution(time=-1)
   scale_T = float(dist.kwds['scale'])
   # the same posterior asked for in another response unit (rescale) on the last day: required impact is linear in the unit
